@@ -24,6 +24,7 @@ def parseItem (s : String) : Item :=
   | ["rel", n] => match n.toNat? with | some n => .ev (.rel n) | none => .bad s
   | ["hold", n] => match n.toNat? with | some n => .ev (.hold n) | none => .bad s
   | ["unhold", n] => match n.toNat? with | some n => .ev (.unhold n) | none => .bad s
+  | ["use", n] => match n.toNat? with | some n => .ev (.use n) | none => .bad s   -- the pool's trap body: a pooled message's body was accessed
   | ["poison", n, "bad"] => match n.toNat? with | some n => .ev (.poisonBad n) | none => .bad s
   | ["poison", _, "ok"] => .mark "poison-ok" 0
   | ["step", _] => .mark "step" 0      -- step marks of the path-program scenarios (Driver/C12Paths.lean)
